@@ -1,5 +1,364 @@
-(** Properties_C17.v — placeholder while the proofs are being written. *)
-From LC Require Import EmitDefs.
-Example C17_placeholder : is_valid (mkAmodel MOde None nil nil false nil nil) = true.
-Proof. reflexivity. Qed.
-Print Assumptions C17_placeholder.
+(** Properties_C17.v — statements only.  Each theorem is closed by [exact <lemma of EmitProofs>] and followed by
+    Print Assumptions.  C17: the declared structure of the generated code matches the analysed model.
+
+    Model: EmitDefs.v (transcription of generator.cpp's count / info-table / buffer-size / helper / method-frame
+    emission, of Generator::interfaceCode / implementationCode with their guards, of the (ODE, externals) selectors of
+    generatorprofile.cpp and of analyser.cpp's analyseNode with its mNeed*Function flags), over the profile tables
+    LCGen.ProfileStrings regenerated from generatorprofile.cpp on every run: every statement below that mentions
+    profile_C / profile_Py / prof k is re-checked against the strings the library has NOW. *)
+From Coq Require Import String Ascii List Bool Arith.
+From LC Require Import Common AstDefs GenDefs EmitDefs EmitProofs.
+From LCGen Require Import AstTypes ProfileStrings.
+Import ListNotations.
+Local Open Scope string_scope.
+
+(** ** 1. counts *)
+
+(** The implementation carries "STATE_COUNT = <number of states>" (only for a model with ODEs) and
+    "VARIABLE_COUNT = <number of variables>", in the syntax of the profile; the C interface declares the same names. *)
+Theorem C17_counts_match : forall k m,
+  state_and_variable_count_code (prof k) m false =
+    (if has_odes m then count_line k "STATE_COUNT" (length (am_states m)) else "")
+    ++ count_line k "VARIABLE_COUNT" (length (am_variables m))
+  /\ state_and_variable_count_code (prof k) m true =
+    (if has_odes m then count_decl k "STATE_COUNT" else "") ++ count_decl k "VARIABLE_COUNT".
+Proof. exact EmitProofs.counts_match. Qed.
+Print Assumptions C17_counts_match.
+
+(** ... and the number can be read back: different counts give different text. *)
+Theorem C17_count_line_inj : forall k name n n', count_line k name n = count_line k name n' -> n = n'.
+Proof. exact EmitProofs.count_line_inj. Qed.
+Print Assumptions C17_count_line_inj.
+
+(** ** 2. info tables: row i describes the analyser variable with index i
+    Hypothesis [wf_indices]: state indices are 0..n-1 in list order, variable indices likewise.  That is C05's theorem
+    Properties_C05.C05_result_wf_indices (analyse s = Done r -> wf_indices r = true) about the analyser's index
+    assignment; the check re-validates it on the accessor dump of every generated model. *)
+Theorem C17_info_entry_i : forall k m v, wf_indices m -> In v (am_variables m) ->
+  nth_error (variable_info_table (prof k) m) (av_index v) = Some (variable_info (prof k) v).
+Proof. exact EmitProofs.info_entry_i. Qed.
+Print Assumptions C17_info_entry_i.
+
+Theorem C17_state_info_entry_i : forall k m v, wf_indices m -> In v (am_states m) ->
+  nth_error (state_info_table (prof k) m) (av_index v) = Some (state_info (prof k) v).
+Proof. exact EmitProofs.state_entry_i. Qed.
+Print Assumptions C17_state_info_entry_i.
+
+(** conversely every row is the row of the variable whose index is the row number, and there are exactly
+    STATE_COUNT / VARIABLE_COUNT rows *)
+Theorem C17_info_row_i : forall k m i r, wf_indices m -> nth_error (variable_info_table (prof k) m) i = Some r ->
+  exists v, In v (am_variables m) /\ av_index v = i /\ r = variable_info (prof k) v.
+Proof. exact EmitProofs.info_row_i. Qed.
+Print Assumptions C17_info_row_i.
+
+Theorem C17_info_table_lengths : forall k m,
+  length (state_info_table (prof k) m) = length (am_states m)
+  /\ length (variable_info_table (prof k) m) = length (am_variables m).
+Proof. exact EmitProofs.info_lengths. Qed.
+Print Assumptions C17_info_table_lengths.
+
+(** the type column: CONSTANT / COMPUTED_CONSTANT / ALGEBRAIC / EXTERNAL (with the "VariableType." prefix in Python) *)
+Theorem C17_variable_type_text : forall k t, variable_type_string (prof k) t = type_text k t.
+Proof. exact EmitProofs.variable_type_text. Qed.
+Print Assumptions C17_variable_type_text.
+
+(** one row as text: {"name", "units", "component", TYPE} — for names without '[' (CellML identifiers) *)
+Theorem C17_info_entry_text : forall k i,
+  ident_ok (i_name i) = true -> ident_ok (i_units i) = true -> ident_ok (i_component i) = true ->
+  info_entry_code (prof k) i = entry_text k i.
+Proof. exact EmitProofs.info_entry_text. Qed.
+Print Assumptions C17_info_entry_text.
+
+(** the emitted table is the rows, in order, joined by ",\n": row i of the text is row i of the table *)
+Theorem C17_info_rows_in_order : forall k rows,
+  info_elements_code (prof k) rows =
+  str_concat (array_element_separator_string (prof k) ++ nl)
+             (map (fun i => indent_string (prof k) ++ info_entry_code (prof k) i) rows).
+Proof. exact EmitProofs.info_rows_in_order. Qed.
+Print Assumptions C17_info_rows_in_order.
+
+(** VOI_INFO and STATE_INFO are emitted exactly for models with ODEs, VARIABLE_INFO always, with these frames *)
+Theorem C17_voi_info_text : forall k m code v, am_voi m = Some v ->
+  add_implementation_voi_info (prof k) m code =
+  if has_odes m then code ++ nlin code ++ voi_line k (info_entry_code (prof k) (voi_info (prof k) v)) else code.
+Proof. exact EmitProofs.implementation_voi_info_text. Qed.
+Print Assumptions C17_voi_info_text.
+
+Theorem C17_state_info_text : forall k m code,
+  add_implementation_state_info (prof k) m code =
+  if has_odes m
+  then code ++ nlin code ++ table_text k "STATE_INFO" (info_elements_code (prof k) (state_info_table (prof k) m) ++ nl)
+  else code.
+Proof. exact EmitProofs.implementation_state_info_text. Qed.
+Print Assumptions C17_state_info_text.
+
+Theorem C17_variable_info_text : forall k m code,
+  add_implementation_variable_info (prof k) m code =
+  code ++ nlin code ++ table_text k "VARIABLE_INFO"
+    (let e := info_elements_code (prof k) (variable_info_table (prof k) m) in if is_empty e then e else e ++ nl).
+Proof. exact EmitProofs.implementation_variable_info_text. Qed.
+Print Assumptions C17_variable_info_text.
+
+(** ** 3. buffers *)
+
+(** every name / units / component string that goes into a VariableInfo record (the voi and the states only for a
+    model with ODEs, the variables always) is strictly shorter than the declared size of its buffer *)
+Theorem C17_buffers_fit : forall m v, In v (info_vars m) -> fits v (info_sizes m).
+Proof. exact EmitProofs.buffers_fit. Qed.
+Print Assumptions C17_buffers_fit.
+
+(** and no byte is wasted: each size is 1 + the length of the longest string of its kind *)
+Theorem C17_sizes_tight : forall m, info_vars m <> [] ->
+  (exists v, In v (info_vars m) /\ sz_component (info_sizes m) = String.length (av_comp v) + 1)
+  /\ (exists v, In v (info_vars m) /\ sz_name (info_sizes m) = String.length (av_name v) + 1)
+  /\ (exists v, In v (info_vars m) /\ sz_units (info_sizes m) = String.length (av_units v) + 1).
+Proof. exact EmitProofs.sizes_tight. Qed.
+Print Assumptions C17_sizes_tight.
+
+(** the sizes are what the C interface declares *)
+Theorem C17_declared_buffer_sizes : forall m,
+  variable_info_object_code m (variable_info_object_string profile_C) =
+  "typedef struct {" ++ nl ++ "    char name[" ++ nat_to_string (sz_name (info_sizes m)) ++ "];" ++ nl
+  ++ "    char units[" ++ nat_to_string (sz_units (info_sizes m)) ++ "];" ++ nl
+  ++ "    char component[" ++ nat_to_string (sz_component (info_sizes m)) ++ "];" ++ nl
+  ++ "    VariableType type;" ++ nl ++ "} VariableInfo;" ++ nl.
+Proof. exact EmitProofs.variable_info_object_text. Qed.
+Print Assumptions C17_declared_buffer_sizes.
+
+(** ** 4. need-flags *)
+
+(** AST level: the flag of helper h is set exactly when a node of h's type occurs in the equation's AST — anywhere:
+    [occurs] descends through both children of every node, so an operator inside a DEGREE / LOGBASE / BVAR qualifier,
+    a PIECE value or condition, an OTHERWISE or an n-ary tail is found (by induction on the AST). *)
+Theorem C17_flag_iff_occurs : forall h a, get_flag h (need_flags a) = true <-> occurs (ty_of_helper h) a.
+Proof. exact EmitProofs.flag_iff_occurs. Qed.
+Print Assumptions C17_flag_iff_occurs.
+
+Theorem C17_flags_of_equations : forall l h,
+  get_flag h (need_flags_list l) = true <-> exists a, In a l /\ occurs (ty_of_helper h) a.
+Proof. exact EmitProofs.need_flags_list_spec. Qed.
+Print Assumptions C17_flags_of_equations.
+
+(** qualifier and piecewise skeleton nodes flag nothing themselves and hide nothing *)
+Theorem C17_qualifier_transparent : forall h q v a, In q [DEGREE; LOGBASE; BVAR; PIECE; OTHERWISE; PIECEWISE] ->
+  get_flag h (need_flags (Node q v a Null)) = get_flag h (need_flags a).
+Proof. exact EmitProofs.qualifier_transparent. Qed.
+Print Assumptions C17_qualifier_transparent.
+
+(** MathML level (analyseNode itself): the flags after analysing a tree are the flags before plus exactly the helper
+    types of the AST that was built (the operator of every apply being an element without children) ... *)
+Theorem C17_analyse_flags_are_ast_flags : forall n, heads_leaf n = true -> forall pm gp fl h,
+  get_flag h (snd (analyse pm gp n fl)) = get_flag h fl || occurs_b (ty_of_helper h) (fst (analyse pm gp n fl)).
+Proof. exact EmitProofs.analyse_flags_ok. Qed.
+Print Assumptions C17_analyse_flags_are_ast_flags.
+
+(** ... and, on trees of the arity the MathML DTD / the validator let through, plus exactly the helper elements
+    that occur in the tree at any depth *)
+Theorem C17_analyse_flags_are_elements : forall n, wf_mml n = true -> forall pm gp fl h,
+  get_flag h (snd (analyse pm gp n fl)) = get_flag h fl || uses pm gp h n.
+Proof. exact EmitProofs.analyse_uses. Qed.
+Print Assumptions C17_analyse_flags_are_elements.
+
+Theorem C17_uses_iff_element : forall h, h <> HEq -> forall n pm gp,
+  uses pm gp h n = true <-> has_element (element_name h) n.
+Proof. exact EmitProofs.uses_iff_element. Qed.
+Print Assumptions C17_uses_iff_element.
+
+(** `eq`: the equality of an equation is not an operator, every other eq element is *)
+Theorem C17_eq_equation : forall args,
+  uses true false HEq (El "apply" (El "eq" [] :: args)) = existsb (uses false true HEq) args.
+Proof. exact EmitProofs.uses_eq_equation. Qed.
+Print Assumptions C17_eq_equation.
+
+Theorem C17_eq_operand : forall name kids, name <> "eq" ->
+  (uses false true HEq (El name kids) = true <-> has_element "eq" (El name kids)).
+Proof. exact EmitProofs.uses_eq_operand. Qed.
+Print Assumptions C17_eq_operand.
+
+(** the flags of a whole model (every top-level child of every <math>, all components) *)
+Theorem C17_model_flags : forall eqs, forallb wf_mml eqs = true ->
+  forall h, get_flag h (snd (analyse_math eqs)) = existsb (uses true false h) eqs.
+Proof. exact EmitProofs.analyse_math_uses. Qed.
+Print Assumptions C17_model_flags.
+
+(** ** 5. helper functions *)
+
+(** a helper's definition is emitted iff its flag is set and the profile has no native operator for it — for both
+    built-in profiles, over the regenerated table (this includes: every helper that might be needed HAS a
+    non-empty definition string) *)
+Theorem C17_helper_iff : forall k m h, is_valid m = true ->
+  (In h (helpers_emitted (prof k) m) <-> get_flag h (am_flags m) = true /\ has_operator (prof k) h = false).
+Proof. exact EmitProofs.helper_iff. Qed.
+Print Assumptions C17_helper_iff.
+
+Theorem C17_profile_lacks_C : forall h, has_operator profile_C h = false <->
+  In h [HXor; HMin; HMax; HSec; HCsc; HCot; HSech; HCsch; HCoth; HAsec; HAcsc; HAcot; HAsech; HAcsch; HAcoth].
+Proof. exact EmitProofs.profile_lacks_C. Qed.
+Print Assumptions C17_profile_lacks_C.
+
+Theorem C17_profile_lacks_Py : forall h, has_operator profile_Py h = false.
+Proof. exact EmitProofs.profile_lacks_Py. Qed.
+Print Assumptions C17_profile_lacks_Py.
+
+(** the definition defines the very name that generateCode prints for the operator *)
+Theorem C17_helper_defines_called_name : forall k h, has_operator (prof k) h = false ->
+  sig_name (def_sig (function_string (prof k) h)) = call_string (prof k) h.
+Proof. exact EmitProofs.helper_defines_called_name. Qed.
+Print Assumptions C17_helper_defines_called_name.
+
+(** nothing is emitted "just in case": no flag or no valid model, no helper *)
+Theorem C17_helper_needs_flag : forall p m h, In h (helpers_emitted p m) ->
+  is_valid m = true /\ get_flag h (am_flags m) = true.
+Proof. exact EmitProofs.helper_needs_flag. Qed.
+Print Assumptions C17_helper_needs_flag.
+
+(** "helper functions are emitted exactly when the equations use them": read against the equations of the ANALYSED
+    model (AnalyserModel::equations()) this is refuted — an equation replaced by an external variable keeps the flags
+    that analyseNode set while reading its MathML (known finding C17-helper-for-externalised-equation, pinned by the
+    expected files of tests/generator) ... *)
+Theorem C17_helper_iff_used_refuted :
+  is_valid ext_model = true /\ wf_mml ext_equation = true
+  /\ In HSec (helpers_emitted profile_C ext_model) /\ In HSec (helpers_emitted profile_Py ext_model)
+  /\ ~ equations_use ext_model HSec.
+Proof. exact EmitProofs.helper_iff_used_refuted. Qed.
+Print Assumptions C17_helper_iff_used_refuted.
+
+(** ... and it holds whenever the flags are those of the ASTs the model kept (no equation externalised or dropped;
+    the check compares the two on every model) *)
+Theorem C17_helper_iff_used_partial : forall k m h, is_valid m = true -> flags_from_equations m ->
+  (In h (helpers_emitted (prof k) m) <-> equations_use m h /\ has_operator (prof k) h = false).
+Proof. exact EmitProofs.helper_iff_used_partial. Qed.
+Print Assumptions C17_helper_iff_used_partial.
+
+(** the flags analyseNode leaves in the model are those of the ASTs it built, over all equations *)
+Theorem C17_model_flags_are_ast_flags : forall eqs, forallb heads_leaf eqs = true ->
+  forall h, get_flag h (snd (analyse_math eqs)) = get_flag h (need_flags_list (fst (analyse_math eqs))).
+Proof. exact EmitProofs.analyse_math_flags_ast. Qed.
+Print Assumptions C17_model_flags_are_ast_flags.
+
+(** ** 6. interface and implementation agree *)
+
+(** what the C interface declares, for each (model has ODEs, model has external variables) *)
+Theorem C17_declared_sigs_table : forall m, declared_sigs profile_C m = declared_C (has_odes m) (am_has_ext m).
+Proof. exact EmitProofs.declared_sigs_table. Qed.
+Print Assumptions C17_declared_sigs_table.
+
+Theorem C17_declared_names : forall m,
+  map sig_name (declared_sigs profile_C m) =
+  ((if has_odes m then ["createStatesArray"] else [])
+   ++ ["createVariablesArray"; "deleteArray"; "initialiseVariables"; "computeComputedConstants"]
+   ++ (if has_odes m then ["computeRates"] else []) ++ ["computeVariables"])%list.
+Proof. exact EmitProofs.declared_names. Qed.
+Print Assumptions C17_declared_names.
+
+(** every function declared in the interface is defined exactly once in the implementation with the same signature
+    string — whatever helpers are emitted and whatever NLA systems the model has (their functions have other names) *)
+Theorem C17_declared_defined_once : forall m s, In s (declared_sigs profile_C m) ->
+  count_occ string_dec (defined_sigs profile_C m) s = 1.
+Proof. exact EmitProofs.declared_defined_once. Qed.
+Print Assumptions C17_declared_defined_once.
+
+(** the Python profile has no interface at all *)
+Theorem C17_python_has_no_interface : forall ver m, interface_code PPy (Some profile_Py) ver m = "".
+Proof. exact EmitProofs.python_has_no_interface. Qed.
+Print Assumptions C17_python_has_no_interface.
+
+(** the other interface pieces by combination *)
+Theorem C17_interface_info_declarations : forall m code,
+  add_interface_voi_state_and_variable_info profile_C m code =
+  code ++ nl ++ (if has_odes m then "extern const VariableInfo VOI_INFO;" ++ nl ++ "extern const VariableInfo STATE_INFO[];" ++ nl else "")
+  ++ "extern const VariableInfo VARIABLE_INFO[];" ++ nl.
+Proof. exact EmitProofs.interface_info_declarations. Qed.
+Print Assumptions C17_interface_info_declarations.
+
+Theorem C17_external_typedef : forall m code,
+  add_external_variable_method_type_definition profile_C m code =
+  if am_has_ext m
+  then code ++ nl ++ (if has_odes m
+                      then ("typedef double (" ++ "* ExternalVariable)(double voi, double *states, double *rates, double *variables, size_t index);")
+                      else ("typedef double (" ++ "* ExternalVariable)(double *variables, size_t index);")) ++ nl
+  else code.
+Proof. exact EmitProofs.external_typedef_iff. Qed.
+Print Assumptions C17_external_typedef.
+
+Theorem C17_variable_type_enum : forall fdm wev,
+  variable_type_object_string profile_C fdm wev =
+  "typedef enum {" ++ nl
+  ++ (if fdm then "    VARIABLE_OF_INTEGRATION," ++ nl ++ "    STATE," ++ nl else "")
+  ++ "    CONSTANT," ++ nl ++ "    COMPUTED_CONSTANT," ++ nl ++ "    ALGEBRAIC"
+  ++ (if wev then "," ++ nl ++ "    EXTERNAL" else "") ++ nl ++ "} VariableType;" ++ nl.
+Proof. exact EmitProofs.variable_type_object_C. Qed.
+Print Assumptions C17_variable_type_enum.
+
+(** objectiveFunction<i> / findRoot<i> are emitted exactly for models with NLA systems (type NLA or DAE), one pair per
+    system in the order of addNlaSystemsCode; a model without NLA equations has no system *)
+Theorem C17_nla_methods_iff : forall k m,
+  nla_templates (prof k) m =
+  if has_nlas m
+  then flat_map (fun '(idx, size) => [objective_function_template (prof k) m idx; find_root_template (prof k) m idx size]) (nla_systems m)
+  else [].
+Proof. exact EmitProofs.nla_methods_iff. Qed.
+Print Assumptions C17_nla_methods_iff.
+
+Theorem C17_nla_systems_none : forall m,
+  forallb (fun e => negb (is_nla (ae_type e))) (am_equations m) = true -> nla_systems m = [].
+Proof. exact EmitProofs.nla_systems_none. Qed.
+Print Assumptions C17_nla_systems_none.
+
+(** ** 7. validity guards *)
+
+(** no model, no profile, or a model whose type is not ODE / DAE / NLA / ALGEBRAIC: both code strings are empty,
+    for every profile *)
+Theorem C17_invalid_empty : forall k p ver m,
+  (m = None \/ p = None \/ exists m', m = Some m' /\ is_valid m' = false) ->
+  interface_code k p ver m = "" /\ implementation_code k p ver m = [].
+Proof. exact EmitProofs.invalid_empty. Qed.
+Print Assumptions C17_invalid_empty.
+
+Theorem C17_invalid_types : forall m, is_valid m = false <->
+  In (am_type m) [MUnknown; MInvalid; MUnderconstrained; MOverconstrained; MUnsuitablyConstrained].
+Proof. exact EmitProofs.invalid_types. Qed.
+Print Assumptions C17_invalid_types.
+
+(** ** 8. non-vacuity: a DAE model with an external variable, an NLA system and a helper; an equation whose only
+    helper-requiring operator sits in a piecewise condition inside a logbase *)
+Example C17_nonvacuous :
+  is_valid ex_model = true /\ wf_indices ex_model
+  /\ nth_error (variable_info_table profile_C ex_model) 1 = Some (mkInfo "i_long_name" "uA_per_cm2" "membrane" "ALGEBRAIC")
+  /\ nth_error (variable_info_table profile_Py ex_model) 2 = Some (mkInfo "e" "dimensionless" "env" "VariableType.EXTERNAL")
+  /\ info_sizes ex_model = mkSizes 9 12 14
+  /\ helpers_emitted profile_C ex_model = [HXor] /\ helpers_emitted profile_Py ex_model = [HXor]
+  /\ nla_systems ex_model = [(0, 1)]
+  /\ interface_code PC (Some profile_C) "0.6.1" (Some ex_model) <> ""
+  /\ implementation_code PPy (Some profile_Py) "0.6.1" (Some ex_model) <> []
+  /\ length (declared_sigs profile_C ex_model) = 7
+  /\ wf_mml ex_equation = true
+  /\ snd (analyse_math [ex_equation]) = [HXor]
+  /\ map ast_ty (fst (analyse_math [ex_equation])) = [EQUALITY].
+Proof. exact EmitProofs.nonvacuous. Qed.
+Print Assumptions C17_nonvacuous.
+
+Example C17_helper_table_C :
+  map (fun h => (helper_name h, sig_name (def_sig (function_string profile_C h))))
+      (filter (fun h => negb (has_operator profile_C h)) all_helpers)
+  = [("xor", "xor"); ("min", "min"); ("max", "max"); ("sec", "sec"); ("csc", "csc"); ("cot", "cot"); ("sech", "sech");
+     ("csch", "csch"); ("coth", "coth"); ("asec", "asec"); ("acsc", "acsc"); ("acot", "acot"); ("asech", "asech");
+     ("acsch", "acsch"); ("acoth", "acoth")].
+Proof. exact EmitProofs.helper_table_C. Qed.
+Print Assumptions C17_helper_table_C.
+
+Example C17_helper_table_Py :
+  map (fun h => sig_name (def_sig (function_string profile_Py h))) all_helpers
+  = ["eq_func"; "neq_func"; "lt_func"; "leq_func"; "gt_func"; "geq_func"; "and_func"; "or_func"; "xor_func"; "not_func";
+     "min"; "max"; "sec"; "csc"; "cot"; "sech"; "csch"; "coth"; "asec"; "acsc"; "acot"; "asech"; "acsch"; "acoth"].
+Proof. exact EmitProofs.helper_table_Py. Qed.
+Print Assumptions C17_helper_table_Py.
+
+(* NOT PROVED (observed by the check only, never claimed as proved):
+   - "the C code compiles without diagnostics other than unused-parameter / unused-variable" and "the Python code
+     loads": compiler / interpreter behaviour (A-cc).  The check compiles and loads every generated model; two
+     classes of gcc diagnostics are known findings (known_findings.d/C17.json).
+   - the names of ALL defined functions are pairwise distinct, including objectiveFunction<i> / findRoot<i> over the
+     NLA system indices (checked on the generated text; C17_declared_defined_once covers the declared functions).
+   - the method bodies (generateEquationCode etc.) are C03's subject; here they are holes of the implementation.
+   - wf_indices is a hypothesis (C05's result_wf_indices); no Coq-level composition with C05's model. *)
